@@ -60,6 +60,7 @@ struct HCfg {
                 case 0: return mac_from_u64(0);
                 case 1: return mac_from_u64(0x01005E000001ULL);
                 case 2: return mac_from_u64(0xFFFFFFFFFFFEULL);
+                case 6: return mac_from_u64((base + ((uint64_t)(((k + 1) % 3) & 0xFFFF) << 8) + 1) ^ 0x020000000000ULL);   // another station's address with the locally-administered bit flipped
                 case 5: return st_bridge((k + 1) % 3);   // this station IS the bridge through which another station's frames arrive (its address = that station's Ethernet source when bridged)
                 case 4: return mac_from_u64(own_at_start ? own_at_start : own);   // frames that claim to come from the responder's own address (the one it had when the case began: a station keeps its address)
                 default: return mac_from_u64((base + ((uint64_t)((k + 1) & 0xFFFF) << 8) + 1) ^ 0x800000000000ULL);
@@ -391,7 +392,7 @@ inline rc::Gen<HCfg> cfg_gen() {
         h.wifi = (int)*pick({0, 0, 1});
         h.own = 0x020000000000ULL | (uint64_t)*range<int64_t>(1, 0xFFFFFF);
         h.stbase = 0x0200AA000000ULL;
-        if (*chance(8)) h.stbase |= ((uint64_t)*range<int64_t>(1, 3) << 48) | ((uint64_t)*range<int64_t>(0, 5) << 52);   // one station with an unusual real address
+        if (*chance(8)) h.stbase |= ((uint64_t)*range<int64_t>(1, 3) << 48) | ((uint64_t)*range<int64_t>(0, 6) << 52);   // one station with an unusual real address
         h.untrunc = (int)*pick({0, 0, 0, 1});
         h.hostname = *bytes(0, 40);
         h.ssid = *bytes(0, 40);
